@@ -178,6 +178,47 @@ def run(tier, seed, replay=None):
             lo, hi = ex["first"]
             ck.fail("inexact-expansion", f"exhaustive tiling check: {ex['bad']} ranges do not tile, first {ex['first']}",
                     {"input": {"op": "complex", "strategy": 1, "Lo": lo, "Hi": hi}})
+    # port texts (parse_sdf.go parsePort): a decimal port or lo-hi with 0 <= lo <= hi <= 65535 is read as written, anything
+    # else - 65536, inverted, signs, empty halves, non-decimal - is refused, never turned into another range
+    try:
+        import re as _re
+        texts = ["0", "1", "80", "080", "65535", "65536", "65537", "70000", "99999999999999999999", "4294967296", "4294967376",
+                 "0-0", "0-65535", "0-65536", "1-65536", "80-65536", "65500-65535", "65500-65536", "65535-65535", "65535-65536", "65536-65536",
+                 "65536-1", "100-90", "5-5", "5-4", "1024-1100", "-80", "80-", "-", "+80", "0x50", "80a", "8 0".replace(" ", ""), "1-2-3",
+                 "65535-0", "131072", "65616", "65536-65616"]
+        for _ in range(40):
+            a1, b1 = rng.randrange(0, 70000), rng.randrange(0, 70000)
+            texts += [str(a1), f"{a1}-{b1}"]
+        tcases, tmeta = [], []
+        for t in texts:
+            for side in ("src", "dst"):
+                fd = f"permit out ip from any {t} to assigned" if side == "src" else f"permit out ip from any to assigned {t}"
+                tcases.append({"text": fd, "ue": "10.0.0.1"})
+                tmeta.append((t, side))
+        tobs = run_harness(build_harness(), "l1_flow", tcases, tag="c17txt")
+        for (t, side), o in zip(tmeta, tobs):
+            ck.evaluations += 1
+            m_ = _re.fullmatch(r"(\d+)(?:-(\d+))?", t)
+            want = None
+            if m_:
+                lo = int(m_.group(1))
+                hi = int(m_.group(2)) if m_.group(2) is not None else lo
+                if lo <= hi <= 65535:
+                    want = [lo, hi]
+            if "panic" in o:
+                ck.fail("port-text:panic", f"port text {t!r} ({side}) makes the parser panic: {o['panic']}", {"input": {"text": t, "side": side}})
+                continue
+            got = None if o.get("err") else o.get("sp" if side == "src" else "dp")
+            if want is None and got is not None:
+                ck.fail("port-text:accepted-unrepresentable", f"port text {t!r} ({side}) is not a port or range within 0-65535 but is accepted as {got}",
+                        {"input": {"text": t, "side": side}, "impl": o})
+            elif want is not None and got is not None and list(got) != want and not (want == [0, 0] and list(got) in ([0, 0], [0, 65535])):
+                ck.fail("port-text:other-range", f"port text {t!r} ({side}) is read as {got}, written {want}", {"input": {"text": t, "side": side}, "impl": o})
+            elif want is not None and got is None:
+                ck.fail("port-text:valid-refused", f"port text {t!r} ({side}) is a port or range within 0-65535 but is refused", {"input": {"text": t, "side": side}, "impl": o})
+        ck.notes["port_texts_checked"] = len(tcases)
+    except HarnessError as e:
+        ck.tie("port-text leg runs", False, str(e)[-800:])
     # system level (bess.go addPDR/delPDR): the port columns of the pdrLookup entries installed for accepted PDRs -
     # SDF filters and PFD-backed application filters with ports on either side - are exactly the Exact-strategy
     # product of the PDR's two ranges, and an unrepresentable pair installs nothing (never an approximation)
